@@ -28,7 +28,13 @@ def sTokenEq : Bytes := [116, 111, 107, 101, 110, 61]  -- "token="
 
 def fallback (pfx : Bytes) : Bytes := if pfx ≠ [] then pfx else [cSlash]
 
-/-- `validateOriginalURL(u, prefix)`. -/
+/-- "Starts with exactly one slash": `/`, or `/c…` with `c` neither `/` nor `\`. -/
+def singleSlash : Bytes → Bool
+  | [c] => c == cSlash
+  | c :: d :: _ => c == cSlash && d != cSlash && d != cBackslash
+  | [] => false
+
+/-- `validateOriginalURL(u, prefix)` (with the guard of the F27 fix as its last test). -/
 def validateOriginalURL (u pfx : Bytes) : Bytes :=
   let u := if u.length > maxOriginalURLLen then u.take maxOriginalURLLen else u
   match parseURL u with
@@ -36,6 +42,7 @@ def validateOriginalURL (u pfx : Bytes) : Bytes :=
   | some p =>
     if p.scheme ≠ [] ∨ p.host ≠ [] then fallback pfx
     else if pfx ≠ [] ∧ ¬ startsWith pfx u then fallback pfx
+    else if ¬ singleSlash u then fallback pfx
     else u
 
 /-- `isLocalhost`. -/
